@@ -1,0 +1,50 @@
+//! Reach counters for the verification harness (cargo feature `verif_probes`, off by default).
+//!
+//! They record that a rarely taken branch of the decoder was executed and change no behaviour.
+use core::sync::atomic::{AtomicU64, Ordering};
+
+pub const LD_INITIAL_V_GT_1: usize = 0;
+pub const LD_REGULAR_STEP: usize = 1;
+pub const LD_SINGULAR_STEP: usize = 2;
+pub const LD_SINGULAR_BREAK: usize = 3;
+pub const CHIEN_DEGREE1_SHORTCUT: usize = 4;
+pub const MALFUNCTION_TEST_REJECTED: usize = 5;
+pub const ERRORS_OUTSIDE_RANGE: usize = 6;
+pub const CORRECTION_IN_EC_PART: usize = 7;
+pub const ROOT_COUNT_REJECTED: usize = 8;
+pub const LD_SINGULAR_M_GT_1: usize = 9;
+pub const CORRECTION_IN_DATA_PART: usize = 10;
+pub const LEADING_SYNDROMES_ZERO_REJECTED: usize = 11;
+
+pub const NAMES: &[&str] = &[
+    "levinson_durbin_initial_v_gt_1",
+    "levinson_durbin_regular_step",
+    "levinson_durbin_singular_step",
+    "levinson_durbin_singular_break",
+    "chien_degree1_shortcut",
+    "malfunction_test_rejected",
+    "errors_outside_range",
+    "correction_applied_in_ec_part",
+    "root_count_rejected",
+    "levinson_durbin_singular_m_gt_1",
+    "correction_applied_in_data_part",
+    "leading_syndromes_zero_rejected",
+];
+
+const N: usize = 12;
+#[allow(clippy::declare_interior_mutable_const)]
+const ZERO: AtomicU64 = AtomicU64::new(0);
+static COUNTERS: [AtomicU64; N] = [ZERO; N];
+
+#[inline]
+pub fn hit(id: usize) {
+    COUNTERS[id].fetch_add(1, Ordering::Relaxed);
+}
+
+pub fn snapshot() -> [u64; N] {
+    let mut out = [0u64; N];
+    for (o, c) in out.iter_mut().zip(COUNTERS.iter()) {
+        *o = c.load(Ordering::Relaxed);
+    }
+    out
+}
